@@ -271,7 +271,7 @@ class SoulSeekClient:
 
         try:
             await command.send(self)
-        except Exception:
+        except BaseException:
             if response and response_future:
                 response_future.cancel()
             raise
